@@ -180,6 +180,80 @@ def open_connection(run, what):
     return None
 
 
+def hitch_with_resends_pending(run, c, r, kind):
+    """the client application sends retry-mode messages into an outage (acks withheld), they leave in two or more datagrams on
+    successive frames, and then the application's frame loop stalls for a little more than the resend interval (a frame hitch:
+    no update() call).  At the next update() the resends of ALL those datagrams are due together.
+    kind 'count':  256-300 EMPTY retry-mode messages - more due resends than the one-byte count field can describe;
+    kind 'medium': medium-sized messages whose resends do not fit into one datagram together.
+    Oracle (packing never raises or loses queued messages): nothing raises (judged by the update()/send-path monitors), and as
+    long as no datagram can have been acked (outage) or timed out (younger than the message timeout) every one of the messages
+    is still registered for a resend or back in the send queue."""
+    w, P = run.world, run.C.Packet
+    conn = c.udp.conn
+    if conn is None or not run.open(c):
+        return
+    for _ in range(90):              # the application lets its backlog drain first (no new sends)
+        if len(conn.outgoing_messages) < 50:
+            break
+        w.step()
+    if c.udp.conn is not conn or not run.open(c) or len(conn.outgoing_messages) >= 50:
+        return
+    interval = getattr(conn, "send_keep_alive_interval", 0.1)
+    if interval + 12 * w.dt >= conn.outgoing_timeout:
+        return                       # the first copy times out before a resend is due: nothing to observe
+    normal = dict(w.net.policy)
+    w.net.set(c2s=L.Policy(outage=True), s2c=L.Policy(outage=True))
+    saved = c.updates_per_step
+    try:
+        recs = []
+        if kind == "count":
+            k = r.randint(256, 300)
+            modes = r.choice([[1], [-1], [1, -1]])
+            for _ in range(k):
+                recs.append(run.app.send(c, "client", 0, r.choice(modes), with_cb=False))
+        else:
+            size = min(r.randint(300, 700), P.MAX_PAYLOAD_SIZE)
+            n = (2 * P.MAX_PAYLOAD_SIZE) // size + r.randint(2, 3)
+            modes = r.choice([[1], [1], [-1], [1, -1]])
+            for _ in range(n):
+                recs.append(run.app.send(c, "client", max(11, size - r.randint(0, 40)), r.choice(modes), with_cb=False))
+        recs = [x for x in recs if x["refused"] is None and x.get("nmsgs") == 1 and x["status_at_send"] == 2]
+        mine = {x["msgseq_first"] for x in recs}
+        for _ in range(12):
+            if not any(int(m.seq) in mine for m in conn.outgoing_messages):
+                break
+            w.step()
+        # the frame hitch
+        c.updates_per_step = 0
+        w.step(int((interval + 0.02) / w.dt) + 1)
+        c.updates_per_step = saved
+        judged = 0
+        for _ in range(6):
+            w.step()
+            if c.udp.conn is not conn or not run.open(c) or not recs:
+                break
+            if w.clock.now - min(x["t"] for x in recs) >= conn.outgoing_timeout - 2 * w.dt:
+                break
+            held = {int(s) for s in conn.pending_retry_msg} | {int(m.seq) for m in conn.outgoing_messages}
+            gone = sorted(mine - held)
+            judged += 1
+            if gone:
+                run.report("C09", "due-resend-dropped-from-resend-registry",
+                           "MTU %d: %d retry-mode messages (%s, %d bytes) were sent by the client into an outage in several datagrams; "
+                           "after a frame hitch of %.3f s their resends fell due together; %.3f s after send() (message timeout %.2f s, "
+                           "nothing acked) %d of them (message seq %s) are neither registered for a resend nor in the send queue: they "
+                           "will never be sent again" % (P.MTU, len(recs), kind, recs[0]["len"], interval + 0.02, w.clock.now - recs[0]["t"],
+                                                         conn.outgoing_timeout, len(gone), gone[:6]),
+                           {"mtu": P.MTU, "kind": kind})
+                break
+        if judged:
+            run.c.inc("frame_hitch_%s_resends_judged" % kind)
+    finally:
+        c.updates_per_step = saved
+        w.net.set(c2s=normal["c2s"], s2c=normal["s2c"])
+
+
 def run_packing(cfg, out):
     total = 0
     for mtu in cfg["mtus"]:
@@ -238,6 +312,8 @@ def run_packing(cfg, out):
                                 run.c.inc("non_bytes_payload_refused")
                             except Exception as e:
                                 run.report("C09", "send-raised-other", "send(%s) raised %r instead of TypeError" % (type(obj).__name__, e))
+                if staged is None and t in (60, 110, 160, 210):
+                    hitch_with_resends_pending(run, c, r, "count" if t in (60, 210) else "medium")
                 if staged is None and (mode >= 0.7 and mode < 0.78 or (t in (20, 120) and mtu >= 1345)):
                     # resend + fresh: k1 empty BEST_EFFORT messages go out into an outage (nothing is acked); once their
                     # resend is overdue the application adds k2 fresh empty messages in one tick: the datagram built then is
@@ -439,7 +515,7 @@ def finish(tier, seed, results):
     m = merge(results)
     inconclusive = []
     need(m["counters"], ["codec_packets", "codec_form_gcm", "codec_form_crc", "codec_roundtrips_real", "codec_roundtrips_independent",
-                         "mtus_run", "wire_checked", "maximality_checked", "roundtrips_checked", "tiny_floods", "resend_plus_fresh_floods", "mtu_changes_on_open_connections", "non_bytes_payload_refused", "interleaved_sends_injected", "worlds_with_unwritable_socket", "worlds_with_timeout_below_resend_interval", "conservation_checked",
+                         "mtus_run", "wire_checked", "maximality_checked", "roundtrips_checked", "tiny_floods", "resend_plus_fresh_floods", "frame_hitch_count_resends_judged", "frame_hitch_medium_resends_judged", "mtu_changes_on_open_connections", "non_bytes_payload_refused", "interleaved_sends_injected", "worlds_with_unwritable_socket", "worlds_with_timeout_below_resend_interval", "conservation_checked",
                          "packets_built", "handshakes_judged", "handshakes_judged_below_the_default_mtu"], inconclusive)
     cov = {
         "evaluations": m["evaluations"],
